@@ -33,6 +33,8 @@ func (SMEnabled) Name() string {
 type UnAckQueue struct {
 	Uslice []*UnAckedStz
 	sync.RWMutex
+	// Id given to the last pushed element, so that numbering goes on when the queue has been emptied.
+	lastId int
 }
 type UnAckedStz struct {
 	Id  int
@@ -108,7 +110,7 @@ func (uaq *UnAckQueue) Push(s Queueable) error {
 	if uaq == nil {
 		return nil
 	}
-	pushIdx := 1
+	pushIdx := uaq.lastId + 1
 	if len(uaq.Uslice) != 0 {
 		pushIdx = uaq.Uslice[len(uaq.Uslice)-1].Id + 1
 	}
@@ -124,6 +126,7 @@ func (uaq *UnAckQueue) Push(s Queueable) error {
 	}
 
 	uaq.Uslice = append(uaq.Uslice, &e)
+	uaq.lastId = pushIdx
 
 	return nil
 }
